@@ -106,8 +106,38 @@ def gen_project(rng, idx, W, min_occ):
         for slot in slots:
             fb.add("")
             f_id = fresh()
-            fb.add("def fn_%d(alpha, beta):" % f_id if py else "function fn_%d(alpha, beta) {" % f_id)
-            ind = "    " if py else "  "
+            # where the statements live: a plain function, a method (sync or async, also as the FIRST member of its class), a method of a nested class,
+            # an arrow-function class property (a class without any method definition)
+            holder = rng.choice(["plain"] * 5 + (["method", "async-method", "async-method", "nested-class-method", "async-function"] if py else ["method", "arrow-property", "arrow-property"]))
+            closers = []
+            if py:
+                if holder == "plain":
+                    fb.add("def fn_%d(alpha, beta):" % f_id)
+                    ind = "    "
+                elif holder == "async-function":
+                    fb.add("async def fn_%d(alpha, beta):" % f_id)
+                    ind = "    "
+                elif holder == "nested-class-method":
+                    fb.add("class Outer_%d:" % f_id)
+                    fb.add("    class Inner_%d:" % f_id)
+                    fb.add("        def fn_%d(self, alpha, beta):" % f_id)
+                    ind = " " * 12
+                else:
+                    fb.add("class Box_%d:" % f_id)
+                    fb.add("    %sdef fn_%d(self, alpha, beta):" % ("async " if holder == "async-method" else "", f_id))
+                    ind = " " * 8
+            else:
+                if holder == "plain":
+                    fb.add("function fn_%d(alpha, beta) {" % f_id)
+                    ind, closers = "  ", ["}"]
+                elif holder == "method":
+                    fb.add("class Box_%d {" % f_id)
+                    fb.add("  fn_%d(alpha, beta) {" % f_id)
+                    ind, closers = "    ", ["  }", "}"]
+                else:
+                    fb.add("class Box_%d {" % f_id)
+                    fb.add("  fn_%d = (alpha, beta) => {" % f_id)
+                    ind, closers = "    ", ["  };", "}"]
             for _ in range(rng.randint(1, 3)):
                 fb.add(ind + stmt(fb.lang, fresh()))
             if slot is not None:
@@ -139,6 +169,7 @@ def gen_project(rng, idx, W, min_occ):
                     fb.add("%s# thailint: ignore-end" % ind2)
                     r["suppressed"].append(len(r["places"]))
                 r["places"].append([names[fi], first, last])
+                r.setdefault("holders", {})[len(r["places"]) - 1] = holder if fb.lang == "py" or holder == "plain" else "ts-" + holder
                 if deeper:
                     fb.add(ind + stmt(fb.lang, fresh()))
             for _ in range(rng.randint(1, 2)):
@@ -156,8 +187,8 @@ def gen_project(rng, idx, W, min_occ):
                 periodic.append([names[fi], first, len(fb.lines)])
                 fb.add(ind + stmt(fb.lang, fresh()))
             fb.add("%sreturn alpha + tail_%d%s" % (ind, fresh(), "" if py else ";"))
-            if not py:
-                fb.add("}")
+            for c_ in closers:
+                fb.add(c_)
     files = {}
     for name, fb in zip(names, fbs):
         text = "\n".join(fb.lines) + "\n"
@@ -378,7 +409,8 @@ def run(ctx):
                         ctx.discrepancy("suppressed-occurrence-reported", "case %d: occurrence %s:%d-%d sits in an ignore-start/end dry block but is reported" % (case["i"], pf, a, b), rep, files)
                     continue
                 if should and not hits:
-                    ctx.discrepancy("missed-occurrence", "case %d: planted run K=%d M=%d (W=%d, min_occ=%d) occurrence %s:%d-%d not covered by any violation" % (
+                    hold = (r.get("holders") or {}).get(pi, "plain")
+                    ctx.discrepancy("missed-occurrence" + ("" if hold in ("plain", None) else ":inside-" + hold), "case %d: planted run K=%d M=%d (W=%d, min_occ=%d) occurrence %s:%d-%d not covered by any violation" % (
                         case["i"], r["K"], r["M"], W, mo, pf, a, b), rep, files)
                 if not should and hits:
                     why = "K<W" if r["K"] < W else "M<min_occurrences"
